@@ -21,7 +21,7 @@ def spec(tier: str, seed: int, which: str = "C18") -> Spec:
     if K == 2:
         fams = [Family(f"K2-first-{op}", H.make_harness(2, which, [op]), per_path_timeout=3.0, variables=var) for op in ops]
     else:
-        fams = [Family(f"K3-first-{op}-forest{f}", H.make_harness(3, which, [op], forest=f, last_ops=H.THIRD_OPS), per_path_timeout=3.0, variables=var) for op in ops for f in range(len(H.FORESTS))]
+        fams = [Family(f"K3-first-{op}-forest{f}", H.make_harness(3, which, [op], forest=f, last_ops=H.THIRD_OPS), per_path_timeout=3.0, variables=var) for op in ops for f in range(H.FALSY_FOREST)]
     # guided families (C18 only): a stale predecessor is created first, then a longer history over a
     # reduced alphabet follows
     KS = 4
@@ -31,25 +31,35 @@ def spec(tier: str, seed: int, which: str = "C18") -> Spec:
         # a root detached on its own first, then changes below it and re-attachment by construction
         KD = 3 if tier == "quick" else 4
         for op in ("detach_self", "detach"):
-            for f in range(len(H.FORESTS)):
+            for f in range(H.FALSY_FOREST):
                 fams.append(Family(f"detached-K{KD}-{op}-forest{f}", H.make_harness(KD, which, [op], H.DETACHED_LATER, forest=f), per_path_timeout=3.0, variables="selectors: receiver per step; operations after the first from a reduced alphabet"))
         for op in firsts:
-            for f in range(len(H.FORESTS)):
+            for f in range(H.FALSY_FOREST):
                 for r in range(5):
                     fams.append(Family(f"stale-K{KS}-{op}-forest{f}-h{r}", H.make_harness(KS, which, [op], later, forest=f, first_recv=r), per_path_timeout=3.0, variables="selectors: receiver per step; operations after the first from a reduced alphabet"))
     if which == "C19":
         KR = 3 if tier == "quick" else 4
         for op in H.DETACHED_WRAPS + ["detach_self"]:
-            for f in range(len(H.FORESTS)):
-                kk = KR + (1 if op == "detach_self" else 0)
+            for f in range(H.FALSY_FOREST):
+                kk = 4 if op == "detach_self" else KR
                 # quick: the root of the first tree is the node detached on its own, and no duplicate afterwards
                 recv = 0 if (op == "detach_self" and tier == "quick") else None
                 later_ = [o for o in H.REJECT_LATER if o != "duplicate"] if (op == "detach_self" and tier == "quick") else H.REJECT_LATER
                 fams.append(Family(f"stale-detached-K{kk}-{op}-forest{f}", H.make_harness(kk, which, [op], later_, forest=f, first_recv=recv), per_path_timeout=3.0, variables="selectors: receiver per step; operations after the first from a reduced alphabet"))
+    if which == "C19":
+        for f in range(H.FALSY_FOREST):
+            fams.append(Family(f"id-sharing-clone-K3-forest{f}", H.make_harness(3, which, ["duplicate-detached"], ["detach"] if tier == "quick" else H.CLONE_LATER, forest=f, last_ops=H.CLONE_LATER_QUICK if tier == "quick" else None), per_path_timeout=3.0, variables="selectors: receiver / argument per step; first a detached clone (same id as its original), then detach / constructions / replacements over both"))
+    if which == "C19":
+        # two detached wrappers around one attached node, then a construction over both wrappers
+        for f in range(H.FALSY_FOREST):
+            fams.append(Family(f"shared-child-wrappers-K3-forest{f}", H.make_harness(3, which, ["wrap-detached-tuple"], ["wrap-detached-required", "wrap-detached-tuple"], forest=f, last_ops=["wrap-pair", "replace-child", "attach"]), per_path_timeout=3.0, variables="selectors: receiver / argument per step"))
+    # nodes that are falsy in a boolean context: histories of 2 on their own forest
+    for op in ("duplicate-detached", "detach", "detach_self", "replace_with-None", "new-leaf-1", "replace-noop") + (("wrap-detached-tuple",) if which == "C19" else ()):
+        fams.append(Family(f"falsy-nodes-K2-first-{op}", H.make_harness(2, which, [op], forest=H.FALSY_FOREST), per_path_timeout=3.0, variables=var + "; forest with falsy node classes"))
     return Spec(
         families=fams,
         functions=FUNCTIONS,
-        bounds={"history_length": f"{K} (thorough: the third operation from {H.THIRD_OPS})" if K == 3 else 2, "guided_histories": f"C18: length {KS}, first operation in {firsts}, later operations in {later}; C19: a detached wrapper / detach_self first, then {H.REJECT_LATER}", "forests": len(H.FORESTS), "operations": ops, "handles": f"<= {H.MAX_HANDLES} (designated nodes of the initial forest plus results)"},
+        bounds={"history_length": f"{K} (thorough: the third operation from {H.THIRD_OPS})" if K == 3 else 2, "guided_histories": f"C18: length {KS}, first operation in {firsts}, later operations in {later}; C19: a detached wrapper / detach_self first, then {H.REJECT_LATER}", "forests": f"{H.FALSY_FOREST} + one with falsy nodes (K = 2 after a reduced set of first operations)", "operations": ops, "handles": f"<= {H.MAX_HANDLES} (designated nodes of the initial forest plus results)"},
         rule="a case = (initial forest, K operations each with receiver / argument); after every successful operation the invariant is evaluated on every attached node; distinct by (forest, history text)",
         variables="selectors only (bounded exploration of operation histories); per-path watchdog 3 s",
         assumptions=[
